@@ -88,3 +88,78 @@ fn vk_find_mapping_no_bias_2() {
     }
     core::mem::forget(d); // Drop would SIGCONT pid 0 (foreign call, not modelled by Kani)
 }
+
+// ---------------------------------------------------------------------------
+// [B] sanitize_stack_copy (C12; never panics: C02).
+//   length kept; bytes below align_up(sp_offset) zero; trailing partial word zero; every full word at or
+//   above that offset is unchanged iff it qualifies, else the sentinel; qualifies(w) <=>
+//   |w as isize| <= 4096  ||  w in the thread's own stack mapping  ||  w in some executable mapping.
+// Bound: stack copy of exactly N bytes (harness name), fully symbolic content; sp_offset symbolic in
+// 0..=N+9 (so "offset beyond the region" is inside the bound); stack_pointer symbolic; two symbolic
+// mappings at arbitrary 64-bit positions, each at most 4 MiB (bounds the bitmap loop; arbitrary positions
+// cover the modulo-2048 bucket aliasing of the pre-filter), each executable or not.
+// ---------------------------------------------------------------------------
+const DEFACED: usize = 0x0defaced0defaced;
+
+fn qualifies(w: usize, stack_map: Option<(usize, usize)>, exec: &[(usize, usize, bool); 2]) -> bool {
+    let s = w as isize;
+    if s >= -4096 && s <= 4096 { return true; }
+    if let Some((lo, hi)) = stack_map { if lo <= w && w < hi { return true; } }
+    // find_mapping_no_bias returns the FIRST mapping containing the address; it must be executable
+    if exec[0].0 <= w && w < exec[0].1 { return exec[0].2; }
+    if exec[1].0 <= w && w < exec[1].1 { return exec[1].2; }
+    false
+}
+
+fn small_mapping() -> MappingInfo {
+    let m = any_mapping();
+    kani::assume(m.size <= 4 * 1024 * 1024);
+    m
+}
+
+fn check_sanitize<const N: usize>() {
+    let m0 = small_mapping();
+    let m1 = small_mapping();
+    let maps = [
+        (m0.system_mapping_info.start_address, m0.system_mapping_info.end_address, m0.permissions.contains(MMPermissions::EXECUTE)),
+        (m1.system_mapping_info.start_address, m1.system_mapping_info.end_address, m1.permissions.contains(MMPermissions::EXECUTE)),
+    ];
+    let d = bare_dumper(Vec::new(), vec![m0, m1]);
+    let input: [u8; N] = kani::any();
+    let mut stack = input;
+    let sp: usize = kani::any();
+    let sp_offset: usize = kani::any();
+    kani::assume(sp_offset <= N + 9);
+    let stack_map = if maps[0].0 <= sp && sp < maps[0].1 { Some((maps[0].0, maps[0].1)) }
+        else if maps[1].0 <= sp && sp < maps[1].1 { Some((maps[1].0, maps[1].1)) } else { None };
+    let r = d.sanitize_stack_copy(&mut stack, sp, sp_offset);
+    core::mem::forget(d);
+    match r {
+        Ok(()) => {
+            let off = core::cmp::min((sp_offset + 7) & !7, N);
+            let mut i = 0;
+            while i < off { assert!(stack[i] == 0); i += 1; }              // below the stack pointer: zero
+            let mut k = off;
+            while k + 8 <= N {
+                let w = usize::from_ne_bytes([input[k], input[k + 1], input[k + 2], input[k + 3], input[k + 4], input[k + 5], input[k + 6], input[k + 7]]);
+                let o = usize::from_ne_bytes([stack[k], stack[k + 1], stack[k + 2], stack[k + 3], stack[k + 4], stack[k + 5], stack[k + 6], stack[k + 7]]);
+                if qualifies(w, stack_map, &maps) { assert!(o == w); } else { assert!(o == DEFACED); }
+                k += 8;
+            }
+            while k < N { assert!(stack[k] == 0); k += 1; }               // trailing partial word: zero
+        }
+        Err(e) => { core::mem::forget(e); assert!(false, "sanitize_stack_copy has no failure mode for these inputs"); }
+    }
+}
+
+#[kani::proof]
+#[kani::unwind(12)]
+fn vk_sanitize_len8() { check_sanitize::<8>(); }
+
+#[kani::proof]
+#[kani::unwind(15)]
+fn vk_sanitize_len12() { check_sanitize::<12>(); }
+
+#[kani::proof]
+#[kani::unwind(20)]
+fn vk_sanitize_len17() { check_sanitize::<17>(); }
